@@ -48,6 +48,9 @@ struct Rec {
     alive: bool,
     /// (ident, occurrence) -> struct id, of the latest execution
     created: BTreeMap<(u32, u32), u64>,
+    /// restored from a snapshot with dependencies on non-persisted functions: its edges were
+    /// flattened to their base inputs, so equal recomputed values no longer shield it
+    coarse: bool,
 }
 
 #[derive(Clone, Debug)]
@@ -307,7 +310,7 @@ impl ReuseOracle {
         let kind = self.prog.nodes[node].kind;
         let skey = self.pending_we.take();
         if let Some(rec) = self.recs.get(&lk) {
-            let exempt = !rec.alive || rec.untracked || (matches!(kind, Kind::Lru) && !self.modes.lru) || kind.is_cycle_kind() || rec.hist.is_empty();
+            let exempt = !rec.alive || rec.coarse || rec.untracked || (matches!(kind, Kind::Lru) && !self.modes.lru) || kind.is_cycle_kind() || rec.hist.is_empty();
             if self.modes.justify && !exempt {
                 let t = rec.validated_at;
                 let why = rec.reads.iter().any(|r| self.changed_since(r, t)) || (self.modes.lru && self.lru.evicted.contains(&lk));
@@ -373,7 +376,7 @@ impl ReuseOracle {
             self.lru.cached.insert(fr.lk.clone());
         }
         let dur = if fr.untracked { Some(0) } else { fr.dur };
-        let rec = self.recs.entry(fr.lk.clone()).or_insert_with(|| Rec { kind: fr.kind, reads: vec![], untracked: false, validated_at: 0, hist: vec![], alive: true, created: BTreeMap::new() });
+        let rec = self.recs.entry(fr.lk.clone()).or_insert_with(|| Rec { kind: fr.kind, reads: vec![], untracked: false, validated_at: 0, hist: vec![], alive: true, created: BTreeMap::new(), coarse: false });
         rec.hist.push(ExecRec { t, full, dur, fresh: !existed_alive, rev: self.rev });
         if rec.hist.len() > 64 {
             rec.hist.remove(0);
@@ -382,6 +385,7 @@ impl ReuseOracle {
         rec.untracked = fr.untracked;
         rec.validated_at = t;
         rec.alive = true;
+        rec.coarse = false;
         rec.created = fr.created;
         if let Some(sk) = fr.skey {
             self.skey2lk.insert(sk, fr.lk.clone());
@@ -712,9 +716,13 @@ impl Oracle for ReuseOracle {
         self.pending_we = None;
         if info.kind == "restore" {
             // memos of functions that are not persisted do not survive a restore
+            let persisted = |k: Kind| matches!(k, Kind::Plain | Kind::Multi | Kind::Zero | Kind::Ref | Kind::Mk | Kind::OnTs | Kind::OnIt);
+            let dead: BTreeSet<LKey> = self.recs.iter().filter(|(_, r)| !persisted(r.kind)).map(|(k, _)| k.clone()).collect();
             for r in self.recs.values_mut() {
-                if !matches!(r.kind, Kind::Plain | Kind::Multi | Kind::Zero | Kind::Ref | Kind::Mk | Kind::OnTs | Kind::OnIt) {
+                if !persisted(r.kind) {
                     r.alive = false;
+                } else if r.reads.iter().any(|x| matches!(x, Read::Call(k) if dead.contains(k))) {
+                    r.coarse = true;
                 }
             }
             out.bump("restore_seen_by_reuse_oracle");
